@@ -38,6 +38,11 @@ def run_variant(repo, v):
         for ed in v['edits']:
             p = os.path.join(d, ed['file'])
             s = open(p, encoding='utf-8').read()
+            if ed.get('transform') == 'unparse':
+                # behaviour-preserving reformat: drops comments, normalises layout, quotes and line numbers
+                import ast as _ast
+                open(p, 'w', encoding='utf-8').write(_ast.unparse(_ast.parse(s)) + '\n')
+                continue
             if s.count(ed['old']) < 1:
                 return {'id': v['id'], 'status': 'skipped', 'why': 'edit does not apply: %s' % ed['old'][:50]}
             s = s.replace(ed['old'], ed['new'], ed.get('count', 1))
